@@ -239,6 +239,36 @@ func stringValues(c *engine.Ctx, name string, root *jsonfault.Node, paths []json
 			})
 		}
 	}
+	// members that hold one value of a closed value set of the format (checksum algorithm, relationship type, component
+	// type, reference type ...: the const blocks of the two format libraries) take every other value of that set
+	ne := 0
+	for pi := range paths {
+		par := root
+		for _, i := range paths[pi][:len(paths[pi])-1] {
+			par = par.Elems[i]
+		}
+		el := par.Elems[paths[pi][len(paths[pi])-1]]
+		if el.Kind != jsonfault.Scalar || !strings.HasPrefix(el.Raw, `"`) {
+			continue
+		}
+		var orig string
+		if json.Unmarshal([]byte(el.Raw), &orig) != nil || orig == "" {
+			continue
+		}
+		for _, ev := range gen.EnumerationsOf(orig) {
+			pi, ev := pi, ev
+			ne++
+			c.Case(func() any { return map[string]string{"base": name, "path": labels[pi], "original": orig, "enumerated": ev} }, func(t *engine.T) *engine.Violation {
+				rb, _ := json.Marshal(ev)
+				raw := string(rb)
+				f := jsonfault.Fault{Name: "string", Apply: func(p *jsonfault.Node, i int) { p.Elems[i] = &jsonfault.Node{Raw: raw} }}
+				in, _ := jsonfault.Mutate(root, []jsonfault.Path{paths[pi]}, []jsonfault.Fault{f})
+				t.State(fmt.Sprintf("%s|%s|enum|%s", name, labels[pi], ev))
+				return probe(t, []byte(in), false)
+			})
+		}
+	}
+	c.Bound(name+"-enumerated-values", fmt.Sprintf("%d cases: every member holding a value of one of the %d closed value sets of the SPDX and CycloneDX libraries takes every other value of that set", ne, len(gen.Enumerations())))
 	c.Bound(name+"-string-derived", fmt.Sprintf("%d near-misses of the members' own valid values (separator-aligned prefixes and suffixes, short prefixes, doubled, extended, case-flipped)", nd))
 	c.Group(name + "-string-values")
 	n := 0
